@@ -21,4 +21,4 @@ pub type Result<T> = core::result::Result<T, error::Error>;
 
 #[cfg(kani)]
 #[path = "/verif/hooks/core/root.rs"]
-mod verif_hooks;
+pub(crate) mod verif_hooks;
